@@ -359,6 +359,22 @@ def run_codec(script, res, trace):
                 if not check_decoded(res, cls, o2, consumed, '%s of %s at byte %d' % (name, op['type'], pos)):
                     break
         else:
+            try:
+                _message_roundtrip(op, res, with_tx, M)
+            except Exception as e:
+                # building, encoding or decoding a well-formed message raised
+                res.violate(PROP, 'C07/message-encode-decode-not-identity', '%s message: building, encoding or decoding it raised %s' % (
+                    op.get('kind'), type(e).__name__))
+            if res.violations:
+                break
+    trace.add('codec', res.stats.get('rewrite_decoded', 0), res.stats.get('messages', 0))
+
+
+def _message_roundtrip(op, res, with_tx, M):
+    from ipaddress import IPv6Address
+    from io import BytesIO
+    if True:
+        if True:
             a, n = op.get('a', 0), op.get('n', 0)
             k = op['kind']
             b = with_tx[a % len(with_tx)]
@@ -390,7 +406,7 @@ def run_codec(script, res, trace):
             res.distinct.add('message:%s:%d' % (k, min(n, 130) // 16))
             if f.tell() != len(raw) or h2.serialize() + m2.serialize() != raw or type(m2) is not type(msg):
                 res.violate(PROP, 'C07/message-encode-decode-not-identity', '%s message does not survive encode-then-decode' % k)
-                break
+                return
             for fld in ('timestamp', 'id', 'in_response_to', 'context'):
                 if getattr(h2, fld) != getattr(hdr, fld):
                     res.violate(PROP, 'C07/message-encode-decode-not-identity', 'header field %s changed' % fld)
@@ -404,7 +420,6 @@ def run_codec(script, res, trace):
                 if not same:
                     res.violate(PROP, 'C07/message-encode-decode-not-identity', '%s field %s changed' % (k, fld))
                     break
-    trace.add('codec', res.stats.get('rewrite_decoded', 0), res.stats.get('messages', 0))
 
 
 def rewrite_at(raw, rw, pos):
